@@ -285,7 +285,9 @@ class C05(DimwiseCheck):
             if r.random() < 0.6:
                 # stop after every single refinement step (continue with the current point count as limit): transient states
                 # between two ordinary stops become stops themselves
-                ops = [["run", {"max_evaluations": 0}]] + [["step", {"max_evaluations": -1}] for _ in range(r.randint(3, 6))]
+                ops = [["run", {"max_evaluations": 0}]] + [["step", {"max_evaluations": -1}] for _ in range(r.randint(3, 8))]
+                if r.random() < 0.7:
+                    cfg["rebalancing"] = True      # rotations re-level points while component grids keep their point sets
             cfg["dim"] = min(cfg["dim"], 2); cfg["a"] = cfg["a"][:cfg["dim"]]; cfg["b"] = cfg["b"][:cfg["dim"]]
             cfg["lmin"] = min(cfg["lmin"], 2); cfg["lmax"] = max(2, min(cfg["lmax"], cfg["lmin"] + 1))
             cfg["max_intervals"], cfg["max_points"] = 24, 400     # beyond that the run is cut (excluded), these rules are slow
